@@ -311,7 +311,7 @@ EXTRACT_ASSUME = STD_ASSUME + [
 PROPS["C15"] = {
     "files": ["src/cloud.rs", "src/config.rs"],
     "functions": ["GenericCloud::housekeep (announcement-interval slice)", "Config::get_keepalive", "GenericCloud::new (update_freq cast)",
-                  "GenericCloud::reconnect_to_peers (back-off slice)"],
+                  "GenericCloud::reconnect_to_peers (back-off slice)", "GenericCloud::housekeep (peer expiry loop)", "GenericCloud::update_peer_info (expiry refresh)"],
     "bounds": "none on values: every own keep-alive (u16), every advertised peer timeout (u16) for 0..=3 peers, every own peer "
               "timeout and keep-alive option (u32), every back-off state inside the invariant; Kani's overflow checks model the "
               "debug profile, the native replay runs dev and release",
@@ -325,6 +325,7 @@ PROPS["C15"] = {
         K("c15_announce_interval_3_peers", "same, three peers", role="c15_announce_interval"),
         K("c15_keepalive_default_and_explicit", "get_keepalive: explicit value, else max(timeout/2-60, 1) without fault; update_freq cast", role="c15_keepalive"),
         K("c15_backoff_step", "back-off invariant 1 <= interval <= 3600, tries <= 10; doubles at most; next = now + interval"),
+        K("c15_silent_peer_expires_exactly_after_timeout", "refresh sets expiry = now + own timeout; the tick expires exactly the peers silent for longer than the timeout"),
     ],
 }
 
